@@ -117,7 +117,7 @@ func NewEngine(l *Loaded) *Engine {
 		MaxSteps:     50_000_000,
 		MaxPaths:     200000,
 		Workers:      8,
-		SolverKind:   "z3",
+		SolverKind:   "z3-new",
 		TimeoutMs:    10000,
 		externals:    DefaultExternals(),
 		overrides:    l.Overrides,
